@@ -1,4 +1,5 @@
 import AslProofs.ArrayQsort
+import AslProofs.ArrayQsortTotal
 /-! # C01: the element temporaries of `quicksort` (pivot copy, `swap` temporary) — ledger lemmas -/
 namespace AslProofs.Arr
 open AslModel.Arr
@@ -149,5 +150,98 @@ theorem qsortListT_fst (lt : α → α → Bool) (xs : List α) (t : Tmp) :
 
 theorem qsortListT_bal (lt : α → α → Bool) {xs : List α} {t : Tmp} {res : List α × Tmp}
     (h : qsortListT lt xs t = some res) : Tmp.Bal t res.2 := qsortAuxT_bal lt _ xs 0 xs.length t res h
+
+
+/-! ### how many temporaries are alive at once -/
+
+theorem Tmp.peak_ctor {t : Tmp} {B : Int} (h1 : t.peak ≤ B) (h2 : t.live + 1 ≤ B) : t.ctor.peak ≤ B := by
+  simp only [Tmp.ctor]; split <;> omega
+
+theorem partLoopT_peak (lt : α → α → Bool) (p : α) (sf : Nat) : ∀ (f : Nat) (xs : List α) (l r1 : Nat) (t : Tmp)
+    (res : (List α × Nat × Nat) × Tmp), partLoopT lt p sf f xs l r1 t = some res →
+    ∀ B : Int, t.peak ≤ B → t.live + 1 ≤ B → res.2.peak ≤ B := by
+  intro f
+  induction f with
+  | zero => intro xs l r1 t res h; simp [partLoopT] at h
+  | succ f ih =>
+    intro xs l r1 t res h B hB1 hB2
+    rw [partLoopT] at h
+    split at h
+    · cases h1 : scanL lt p xs sf l with
+      | none => rw [h1] at h; simp at h
+      | some l' =>
+        rw [h1, Option.bind_some] at h
+        cases h2 : scanR lt p xs sf r1 with
+        | none => rw [h2] at h; simp at h
+        | some r1' =>
+          rw [h2, Option.bind_some] at h
+          split at h
+          · unfold swapAtT at h
+            cases h3 : swapAt xs l' (r1' - 1) with
+            | none => rw [h3] at h; simp at h
+            | some ys =>
+              rw [h3] at h
+              simp only [Option.map_some, Option.bind_some] at h
+              exact ih _ _ _ _ res h B (Tmp.peak_ctor hB1 hB2) (by simp only [Tmp.ctor, Tmp.dtor]; omega)
+          · exact ih _ _ _ _ res h B hB1 hB2
+    · injection h with h; subst h; exact hB1
+
+/-- with `n < 2 ^ (d + 1)` elements at most `d + 1` temporaries are alive at any moment of the sort (one pivot per
+nesting level — the nested call is on the smaller part — plus one `swap` temporary) -/
+theorem qsortAuxT_peak (lt : α → α → Bool) : ∀ (f : Nat) (xs : List α) (a n : Nat) (t : Tmp) (res : List α × Tmp),
+    qsortAuxT lt f xs a n t = some res → ∀ (d : Nat) (B : Int), n < 2 ^ (d + 1) → t.peak ≤ B → t.live + d + 1 ≤ B →
+    res.2.peak ≤ B := by
+  intro f
+  induction f with
+  | zero => intro xs a n t res h; simp [qsortAuxT] at h
+  | succ f ih =>
+    intro xs a n t res h d B hn hB1 hB2
+    rw [qsortAuxT] at h
+    split at h
+    · injection h with h; subst h; exact hB1
+    · rename_i hn2
+      split at h
+      · cases h
+      · rename_i p _
+        cases d with
+        | zero => simp at hn; omega
+        | succ d' =>
+        have hpow : 2 ^ (d' + 1 + 1) = 2 * 2 ^ (d' + 1) := by rw [Nat.pow_succ]; omega
+        rw [hpow] at hn
+        cases h1 : partLoopT lt p (n + 2) (n + 2) xs a (a + n) t.ctor with
+        | none => rw [h1] at h; simp at h
+        | some rt =>
+          rw [h1] at h; simp only [Option.bind_some] at h
+          have hp := partLoopT_fst lt p (n + 2) (n + 2) xs a (a + n) t.ctor
+          rw [h1] at hp; simp only [Option.map_some] at hp
+          have hcross := partLoop_cross lt p _ _ _ _ _ rt.1 hp.symm
+          have hmono := partLoop_mono lt p _ _ _ _ _ rt.1 hp.symm
+          have b1 := partLoopT_bal lt p _ _ _ _ _ _ rt h1
+          have hl1 : rt.2.live = t.live + 1 := by rw [b1.1]; simp [Tmp.ctor]
+          have pk1 : rt.2.peak ≤ B := partLoopT_peak lt p _ _ _ _ _ _ rt h1 B (Tmp.peak_ctor hB1 (by omega))
+            (by simp only [Tmp.ctor]; omega)
+          split at h
+          · rename_i hsm
+            cases h3 : qsortAuxT lt f rt.1.1 a (rt.1.2.2 - a) rt.2 with
+            | none => rw [h3] at h; simp at h
+            | some x =>
+              rw [h3] at h; simp only [Option.bind_some] at h
+              have b2 := qsortAuxT_bal lt _ _ _ _ _ x h3
+              have pk2 : x.2.peak ≤ B := ih _ _ _ _ x h3 d' B (by omega) pk1 (by omega)
+              exact ih _ _ _ _ res h (d' + 1) B (by rw [hpow]; omega) (by simpa [Tmp.dtor] using pk2)
+                (by simp only [Tmp.dtor]; rw [b2.1, hl1]; omega)
+          · rename_i hsm
+            cases h3 : qsortAuxT lt f rt.1.1 rt.1.2.1 (a + n - rt.1.2.1) rt.2 with
+            | none => rw [h3] at h; simp at h
+            | some x =>
+              rw [h3] at h; simp only [Option.bind_some] at h
+              have b2 := qsortAuxT_bal lt _ _ _ _ _ x h3
+              have pk2 : x.2.peak ≤ B := ih _ _ _ _ x h3 d' B (by omega) pk1 (by omega)
+              exact ih _ _ _ _ res h (d' + 1) B (by rw [hpow]; omega) (by simpa [Tmp.dtor] using pk2)
+                (by simp only [Tmp.dtor]; rw [b2.1, hl1]; omega)
+
+theorem qsortListT_peak (lt : α → α → Bool) {xs : List α} {t : Tmp} {res : List α × Tmp}
+    (h : qsortListT lt xs t = some res) (d : Nat) (B : Int) (hn : xs.length < 2 ^ (d + 1)) (h1 : t.peak ≤ B)
+    (h2 : t.live + d + 1 ≤ B) : res.2.peak ≤ B := qsortAuxT_peak lt _ xs 0 xs.length t res h d B hn h1 h2
 
 end AslProofs.Arr
